@@ -455,6 +455,8 @@ func c04Heads(r *Run) {
 	}
 }
 
+type c04Section string
+
 type c04User struct {
 	Name   string
 	Active bool
@@ -561,6 +563,19 @@ func c04MixedItems(r *Run) {
 						r.Fail("a loop next to static text leaves unevaluated template nodes behind or shows a wrong v-else", map[string]string{"oracle": "text-before-loop", "kind": "oracle"},
 							map[string]any{"template": cs.tpl, "expected": cs.want, "got": got, "err": fmt.Sprint(serr)})
 					}
+				}
+			}
+			// collections reached through a map whose key type is a named string type
+			{
+				tm := `<ul><li v-for="(i, x) in menus.main">m:{{ i }}:{{ x }}</li><li v-else>none-main</li><li v-for="x in menus.side">s:{{ x }}</li><li v-else>none-side</li><li v-for="x in byname.ann.Name">n</li><li v-else>none-name</li></ul>`
+				var sb bytes.Buffer
+				serr := eng.New().Fill(map[string]any{"menus": map[c04Section][]string{"main": {"a", "b"}, "side": {}}, "byname": map[c04Section]c04User{"ann": {Name: "Ann"}}}).RenderString(context.Background(), &sb, tm)
+				got := strings.Join(strings.Fields(sb.String()), "")
+				want := `<ul><li>m:0:a</li><li>m:1:b</li><li>none-side</li><li>none-name</li></ul>`
+				r.Eval(fmt.Sprintf("named-key-map:%d:%d", c, round), true, nil)
+				if serr != nil || got != want {
+					r.Fail("a collection reached through a map with a named string key type is not iterated item by item", map[string]string{"oracle": "named-key-map", "kind": "oracle"},
+						map[string]any{"template": tm, "expected": want, "got": got, "err": fmt.Sprint(serr)})
 				}
 			}
 			tpl := `<i v-for="(i, x) in xs" :data-t="x">{{ i }}={{ x }}</i>` +
